@@ -200,6 +200,27 @@ Section Combinators.
   Definition on_opt (o : option elem) (d : A) : A := match o with Some e => f e | None => d end.
 End Combinators.
 
+(* Contains: some item is accepted (f = the element applied to an item) *)
+Fixpoint contains_loop (f : json -> outcome) (xs : list json) : vres :=
+  match xs with
+  | [] => VRej
+  | x :: r => match f x with
+              | Ok _ => VPass
+              | Rej => contains_loop f r
+              | Crash ex => VCrash ex
+              end
+  end.
+(* PropertyNames: every key, as a string, is accepted *)
+Fixpoint pnames_loop (f : json -> outcome) (xs : list (str * json)) : vres :=
+  match xs with
+  | [] => VPass
+  | (key, _) :: r => match f (JStr key) with
+                     | Ok _ => pnames_loop f r
+                     | Rej => vand VRej (pnames_loop f r)
+                     | Crash ex => VCrash ex
+                     end
+  end.
+
 Section Build.
   Variable O : oracles.
 
@@ -267,21 +288,28 @@ Section Build.
       | Some (_, _, isn), [] => negb isn
       | Some _, _ => true
       end.
+    (* Dependencies, in the order of the dict *)
+  Fixpoint deps_loop (v : json) (kvs : list (str * json)) (ds : list (str * dep_t elem)) : vres :=
+    match ds with
+    | [] => VPass
+    | (key, d) :: r =>
+      if has_key key kvs then
+        match d with
+        | DepNames names => vand (vb (forallb (fun n => has_key n kvs) names)) (deps_loop v kvs r)
+        | DepElem de => match B de (Some v) with
+                        | Ok _ => deps_loop v kvs r
+                        | Rej => vand VRej (deps_loop v kvs r)
+                        | Crash ex => VCrash ex
+                        end
+        end
+      else deps_loop v kvs r
+    end.
     (* validators that recurse into sub-elements *)
   Definition deep_validators (k : kwds elem) (v : json) : vres :=
       vall [
         (* Contains *)
         match v, k_contains k with
-        | JArr l, Some c =>
-          (fix go (xs : list json) : vres :=
-             match xs with
-             | [] => VRej
-             | x :: r => match B c (Some x) with
-                         | Ok _ => VPass
-                         | Rej => go r
-                         | Crash ex => VCrash ex
-                         end
-             end) l
+        | JArr l, Some c => contains_loop (fun x => B c (Some x)) l
         | _, _ => VPass
         end;
         (* AdditionalProperties validator *)
@@ -293,36 +321,12 @@ Section Build.
         end;
         (* PropertyNames *)
         match v, k_propertyNames k with
-        | JObj kvs, Some pn =>
-          (fix go (xs : list (str * json)) : vres :=
-             match xs with
-             | [] => VPass
-             | (key, _) :: r => match B pn (Some (JStr key)) with
-                                | Ok _ => go r
-                                | Rej => vand VRej (go r)
-                                | Crash ex => VCrash ex
-                                end
-             end) kvs
+        | JObj kvs, Some pn => pnames_loop (fun x => B pn (Some x)) kvs
         | _, _ => VPass
         end;
         (* Dependencies *)
         match v, k_dependencies k with
-        | JObj kvs, Some deps =>
-          (fix go (ds : list (str * dep_t elem)) : vres :=
-             match ds with
-             | [] => VPass
-             | (key, d) :: r =>
-               if has_key key kvs then
-                 match d with
-                 | DepNames names => vand (vb (forallb (fun n => has_key n kvs) names)) (go r)
-                 | DepElem de => match B de (Some v) with
-                                 | Ok _ => go r
-                                 | Rej => vand VRej (go r)
-                                 | Crash ex => VCrash ex
-                                 end
-                 end
-               else go r
-             end) deps
+        | JObj kvs, Some deps => deps_loop v kvs deps
         | _, _ => VPass
         end
       ].
@@ -335,6 +339,16 @@ Section Build.
                                (map (fun kv => (fst kv, Some (snd kv))) kvs) in
       let '(s, rs) := collect (map (fun kv => member k (fst kv) (snd kv)) merged) in
       (s, dict_of_pairs rs).
+    (* tuple items: item i by schema i, the rest by additionalItems *)
+  Fixpoint tuple_outs (rest : json -> outcome) (its' : list elem) (xs : list json) {struct its'} : list (unit * outcome) :=
+    match its' with
+    | ie :: ir =>
+      match xs with
+      | [] => []
+      | x :: xr => (tt, B ie (Some x)) :: tuple_outs rest ir xr
+      end
+    | [] => map (fun x => (tt, rest x)) xs
+    end.
     (* Items.__call__(value) *)
   Definition build_items (k : kwds elem) (l : list json) : vres * list rv :=
       let outs :=
@@ -342,17 +356,7 @@ Section Build.
         | None => map (fun x => (tt, Ok (build_any x))) l
         | Some (ItOne ie) => map (fun x => (tt, B ie (Some x))) l
         | Some (ItMany its) =>
-          (fix go (its' : list elem) (xs : list json) {struct its'} : list (unit * outcome) :=
-             match its' with
-             | ie :: ir =>
-               match xs with
-               | [] => []
-               | x :: xr => (tt, B ie (Some x)) :: go ir xr
-               end
-             | [] =>
-               map (fun x => (tt, on_addl (fun e' => B e' (Some x)) (k_additionalItems k)
-                                    (Ok (build_any x)) Rej)) xs
-             end) its l
+          tuple_outs (fun x => on_addl (fun e' => B e' (Some x)) (k_additionalItems k) (Ok (build_any x)) Rej) its l
         end in
       let '(s, rs) := collect outs in (s, map snd rs).
   End Helpers.
